@@ -747,7 +747,131 @@ Qed.
 Print Assumptions stationary.
 Print Assumptions trans_prob_total.
 Print Assumptions trans_prob_support.
+(* ------------------------------------------------------------------------------------ *)
+(* mirror rebuild: from any state s of the final block, the bit-wise mirrored directions   *)
+(* (model.Tree.mirror_dirs) with maxdepth = depth re-create the block; the rebuild stops   *)
+(* for a U-turn iff the block itself turns                                                 *)
+(* ------------------------------------------------------------------------------------ *)
+Lemma P2_pow d : P2 d = 2 ^ Z.of_nat d.
+Proof.
+  induction d; [reflexivity|]. rewrite P2_S, IHd, Nat2Z.inj_succ, Z.pow_succ_r by lia. reflexivity.
+Qed.
+
+Lemma mirror_dirs_path d : forall lo s, inb lo d s -> mirror_dirs lo d s = path lo d s.
+Proof.
+  induction d; intros lo s Hi; [reflexivity|].
+  unfold mirror_dirs. rewrite seq_S, map_app. cbn [map path Nat.add].
+  unfold inb in Hi. rewrite P2_S in Hi. pose proof (P2_pos d) as Hp.
+  destruct (s <? lo + P2 d) eqn:E.
+  - apply Z.ltb_lt in E. f_equal.
+    + apply (IHd lo s). unfold inb. lia.
+    + rewrite <- P2_pow, Z.div_small by lia. reflexivity.
+  - apply Z.ltb_ge in E. f_equal.
+    + rewrite <- (IHd (lo + P2 d) s) by (unfold inb; lia).
+      unfold mirror_dirs. apply map_ext_in. intros j Hj. apply in_seq in Hj.
+      replace (s - lo) with ((s - (lo + P2 d)) + 2 ^ Z.of_nat (d - j) * 2 ^ Z.of_nat j).
+      * rewrite Z.div_add by (apply Z.pow_nonzero; lia).
+        rewrite Z.even_add, (Z.even_pow 2) by lia. cbn [Z.even].
+        destruct (Z.even _); reflexivity.
+      * rewrite <- Z.pow_add_r by lia. replace (Z.of_nat (d - j) + Z.of_nat j) with (Z.of_nat d) by lia.
+        rewrite <- P2_pow. lia.
+    + replace (s - lo) with ((s - lo - P2 d) + 1 * 2 ^ Z.of_nat d) by (rewrite <- P2_pow; lia).
+      rewrite Z.div_add by (apply Z.pow_nonzero; lia).
+      rewrite <- P2_pow, Z.div_small by lia. reflexivity.
+Qed.
+
+Definition halves_ok (turn : Z -> Z -> bool) (lo : Z) (d : nat) : Prop :=
+  match d with O => True | S j => ok turn lo j = true /\ ok turn (lo + P2 j) j = true end.
+Definition top_turn (turn : Z -> Z -> bool) (lo : Z) (d : nat) : bool :=
+  match d with O => false | S j => turn3 turn lo j end.
+
+Lemma ok_halves turn lo d : ok turn lo d = true -> halves_ok turn lo d.
+Proof.
+  destruct d; cbn [ok halves_ok]; auto. intros H.
+  apply andb_true_iff in H. destruct H as [H _]. apply andb_true_iff in H. exact H.
+Qed.
+
+Lemma shape_loop_halves turn : forall f lo d ds lo' d' fl,
+  ok turn lo d = true -> shape_loop turn f lo d ds = Some (lo', d', fl) -> halves_ok turn lo' d'.
+Proof.
+  induction f; intros lo d ds lo' d' fl Hok Hs.
+  - cbn [shape_loop] in Hs. destruct ds; [|discriminate]. inversion Hs; subst. apply ok_halves; auto.
+  - destruct ds as [|fwd ds']; [discriminate|]. cbn [shape_loop] in Hs.
+    set (loN := if fwd then lo + P2 d else lo - P2 d) in *.
+    set (loP := if fwd then lo else lo - P2 d) in *.
+    destruct (ok turn loN d) eqn:EN.
+    + assert (ok turn loP d = true /\ ok turn (loP + P2 d) d = true) as [HL HR].
+      { subst loN loP. destruct fwd; [auto|].
+        replace (lo - P2 d + P2 d) with lo by lia. auto. }
+      destruct (turn3 turn loP d) eqn:ET.
+      * destruct ds'; [|discriminate]. inversion Hs; subst. cbn [halves_ok]. auto.
+      * apply (IHf loP (S d) ds' lo' d' fl); auto. cbn [ok]. rewrite HL, HR, ET. reflexivity.
+    + destruct ds'; [|discriminate]. inversion Hs; subst. apply ok_halves; auto.
+Qed.
+
+Lemma rebuild_from_path turn d : forall lo b,
+  halves_ok turn lo d -> inb lo d b ->
+  shape_loop turn d b 0 (path lo d b) = Some (lo, d, top_turn turn lo d).
+Proof.
+  destruct d as [|j]; intros lo b Hh Hi.
+  - unfold inb in Hi. assert (b = lo) as -> by (assert (P2 0 = 1) by reflexivity; lia). reflexivity.
+  - cbn [halves_ok] in Hh. destruct Hh as [HL HR]. cbn [path top_turn].
+    unfold inb in Hi. rewrite P2_S in Hi. pose proof (P2_pos j) as Hp.
+    replace (S j) with (j + 1)%nat at 1 by lia.
+    destruct (b <? lo + P2 j) eqn:E.
+    + apply Z.ltb_lt in E. rewrite shape_loop_path by (unfold inb; auto; lia).
+      cbn [shape_loop]. rewrite HR. destruct (turn3 turn lo j); reflexivity.
+    + apply Z.ltb_ge in E. rewrite shape_loop_path by (unfold inb; auto; lia).
+      cbn [shape_loop]. replace (lo + P2 j - P2 j) with lo by lia.
+      rewrite HL. destruct (turn3 turn lo j); reflexivity.
+Qed.
+
+Lemma ok_top_turn turn lo d : ok turn lo d = true -> top_turn turn lo d = false.
+Proof.
+  destruct d; cbn [ok top_turn]; auto. intros H.
+  apply andb_true_iff in H. destruct H as [_ H]. apply negb_true_iff in H. exact H.
+Qed.
+
+Lemma shape_loop_noturn turn : forall f lo d ds lo' d',
+  ok turn lo d = true -> shape_loop turn f lo d ds = Some (lo', d', false) -> top_turn turn lo' d' = false.
+Proof.
+  induction f; intros lo d ds lo' d' Hok Hs.
+  - cbn [shape_loop] in Hs. destruct ds; [|discriminate]. inversion Hs; subst. apply ok_top_turn; auto.
+  - destruct ds as [|fwd ds']; [discriminate|]. cbn [shape_loop] in Hs.
+    set (loN := if fwd then lo + P2 d else lo - P2 d) in *.
+    set (loP := if fwd then lo else lo - P2 d) in *.
+    destruct (ok turn loN d) eqn:EN.
+    + assert (ok turn loP d = true /\ ok turn (loP + P2 d) d = true) as [HL HR].
+      { subst loN loP. destruct fwd; [auto|].
+        replace (lo - P2 d + P2 d) with lo by lia. auto. }
+      destruct (turn3 turn loP d) eqn:ET.
+      * destruct ds'; discriminate.
+      * apply (IHf loP (S d) ds' lo' d'); auto. cbn [ok]. rewrite HL, HR, ET. reflexivity.
+    + destruct ds'; discriminate.
+Qed.
+
+Theorem mirror_rebuild :
+  forall (turn : Z -> Z -> bool) (maxdepth : nat) (a : Z) (ds : list bool)
+         (lo hi : Z) (depth : nat) (flag : bool),
+    dshape turn maxdepth a ds = Some (lo, hi, depth, flag) ->
+    forall s, lo <= s <= hi ->
+      mirror_dirs lo depth s = path lo depth s /\
+      length (mirror_dirs lo depth s) = depth /\
+      dshape turn depth s (mirror_dirs lo depth s) = Some (lo, hi, depth, top_turn turn lo depth) /\
+      (flag = false -> top_turn turn lo depth = false).
+Proof.
+  intros turn md a ds lo hi depth flag H s Hs. unfold dshape in H.
+  destruct (shape_loop turn md a 0 ds) as [[[lo' d'] fl]|] eqn:E; [|discriminate].
+  inversion H; subst lo' d' fl. subst hi. clear H.
+  assert (inb lo depth s) as Hi by (unfold inb; lia).
+  pose proof (shape_loop_halves turn md a 0%nat ds lo depth flag eq_refl E) as Hh.
+  rewrite (mirror_dirs_path depth lo s Hi). split; [reflexivity|]. split; [apply path_length|].
+  split; [unfold dshape; rewrite (rebuild_from_path turn depth lo s Hh Hi); reflexivity|].
+  intros ->. exact (shape_loop_noturn turn md a 0%nat ds lo depth eq_refl E).
+Qed.
+
 Print Assumptions shape_sound.
+Print Assumptions mirror_rebuild.
 Print Assumptions shape_complete.
 Print Assumptions trajectory_mirror.
 Print Assumptions dir_mass.
